@@ -6,7 +6,7 @@
 2. spec -> code: every behaviour of MC_VbsHist (all histories write^{0..2} ; (close|exit)^{1..3}, blocked/unblocked) is
    replayed on the real VbsWriter over io.BytesIO and over a real file, with record lengths mapped to block boundaries;
 3. code -> spec: each replayed execution is recorded (ops, file bytes, read-back) and validated by Trace_Vbs.
-   IpmWriter histories are added by harness/ipmc.py once the ISO8583 spec is loaded.
+   The same histories are run on the real IpmWriter (dict records of boundary sizes) and judged by Trace_Ipm.
 """
 import os
 
@@ -59,6 +59,63 @@ def _drive(args):
             '_fins': fins}
 
 
+def _drive_ipm(args):
+    """the same histories on the real IpmWriter (dict records), judged by Trace_Ipm"""
+    from . import ipmc, isoc
+    from .isoc import PKG
+    from cardutil import mciipm
+    import io
+    wd, tid, blk, hist, onfile = args
+    bc = PKG['bit_config']
+    sizes = {1: 40, 2: 44, 3: 1000, 4: 1004, 5: 1008, 6: 1012, 7: 2020, 8: 3032, 9: 57}
+    msgs, fins = [], []
+    for h in hist:
+        if h[0] == 'w':
+            msgs.append(isoc.message_exact(sizes[len(h[1])] + (3 if any(h[1]) else 0)))
+        else:
+            fins.append(h[0])
+    path = os.path.join(wd, 'realipm-%d-%d.bin' % (os.getpid(), tid)) if onfile else None
+    f = open(path, 'w+b') if onfile else io.BytesIO()
+    events = []
+    try:
+        split = tid % 3 == 2        # every exit is its own with-block, entered after what happened before
+        w = mciipm.IpmWriter(f, blocked=blk)
+        if 'exit' in fins and not split:
+            k = fins.index('exit')
+            with w:
+                for m in msgs:
+                    w.write(dict(m))
+                for _ in fins[:k]:
+                    w.close()
+            for x in fins[k + 1:]:
+                w.__exit__(None, None, None) if x == 'exit' else w.close()
+        else:
+            for m in msgs:
+                w.write(dict(m))
+            for x in fins:
+                if x == 'exit':
+                    with w:
+                        pass
+                else:
+                    w.close()
+        f.seek(0)
+        data = f.read()
+        events = [ipmc.iev(1, 'write', m=m) for m in msgs] + [ipmc.iev(1, 'fin') for _ in fins] + [ipmc.iev(1, 'file', b=data)]
+        events += ipmc.read_all_events(1, data, None, None, blk)
+    except BaseException as ex:  # noqa
+        events.append(ipmc.iev(1, 'next', out='exc', n=-1))
+        events[-1]['_observed'] = drv.exc_outcome(ex)
+    finally:
+        if onfile:
+            f.close()
+            os.unlink(path)
+    for e in events:
+        e.pop('_exc', None)
+    return {'tid': tid, 'loc': False, 'strict': True, 'cols': [], 'insts': [{'blk': blk}], 'events': events,
+            '_desc': 'IpmWriter (%s, %s): %d messages then %s%s' % ('blocked' if blk else 'unblocked', 'real file' if onfile else 'BytesIO',
+                                                                   len(msgs), fins, ' (each exit a separate with-block)' if tid % 3 == 2 else '')}
+
+
 def histories(rep, wd, tier):
     out = []
     for blk in ('TRUE', 'FALSE'):
@@ -104,6 +161,20 @@ def run(rep, wd, tier, seed):
     rep.sample({'behaviour': traces[-1]['_desc']})
     batches = core.split(traces, core.NCPU)
     vbsc.validate(rep, wd, batches, 'lifecycle')
+    # IpmWriter: one execution per distinct (lengths, finaliser sequence) history
+    from . import ipmc
+    seen2, ijobs = set(), []
+    for (blk, hist) in hs:
+        sig = (blk, tuple((h[0], len(h[1]) if h[0] == 'w' else 0) for h in hist))
+        if sig in seen2:
+            continue
+        seen2.add(sig)
+        ijobs.append((wd, len(ijobs), blk, hist, len(ijobs) % 2 == 0))
+    itraces = vbsc.parallel(_drive_ipm, ijobs)
+    rep.replayed += len(ijobs)
+    rep.extra['ipmwriter_histories'] = len(ijobs)
+    rep.sample({'behaviour': itraces[-1]['_desc']})
+    ipmc.validate(rep, wd, [(('pkg',), 'latin_1', itraces)], lambda c: True, 'lifecycle-ipm', maxbatch=40)
     rep.exhaustive = True
     rep.notes.append('exhaustive over histories write^{0..2};(close|exit)^{1..3} of the lifecycle model')
 
